@@ -59,6 +59,8 @@ def run(prog, chk):
     chk.rule(strops.check_for, prog, chk, "C09")  # A14.str-ops: how this property's strings are cut up is a reviewed, frozen inventory
     chk.rule(strops.blank_only_separators, prog, chk)  # a pair / list cut at blanks is cut at tabs and newlines too
     from props import strops as _so
+    from props import C04 as _C04f
+    chk.rule(_C04f.formatter_integer_shortcut_is_exact, prog, chk)  # the x / y / width a later `#id|h` reads back are the computed ones up to the output rounding
     chk.rule(_so.affix_test_sees_what_parser_sees, prog, chk)  # `dw="50% "` and `dw="50%"` are the same shorthand value
 
 
